@@ -161,7 +161,7 @@ class World(object):
                         self.viols.append({"signature": "batteries._ReplLockManagerImpl.acquire:expired-lock-not-obtainable",
                                            "what": "holder %d's greatest stamp in the log is %d, U=%d; acquire(L%d,%d,%d) answered %r"
                                                    % (a, self.maxstamp.get(a, -1), self.U, l, c, t, r)})
-                elif r is True and t <= held[l][1] + self.U:
+                elif r is True and t < held[l][1] + self.U:
                     self.viols.append({"signature": "batteries._ReplLockManagerImpl.acquire:lock-stolen-before-expiry",
                                        "what": "acquire(L%d,%d,%d) granted while %d holds it since %d, U=%d" % (l, c, t, a, held[l][1], self.U)})
         if cmd[0] == "rel":
